@@ -47,6 +47,12 @@ CLAIMED = {
  "C13": ("Bounded model checking of the real ARP handler on a real Session (NewSession with a recording connection): for every valid ARP frame, every hunt list of <= 2 entries and every DHCP-offer state the frames emitted by ProcessPacket are exactly the specified router-spoof reply (asker hunted and asking for the router) or probe reject (different outstanding offer, probed address in the home LAN), else nothing; StartHunt rejects nil MAC / non-IPv4, is idempotent per MAC and starts one loop; StopHunt removes exactly that MAC; the spoof loop sends forged announcements only to hunted MACs, stops within one iteration after StopHunt with exactly one corrective request carrying the router's real MAC, and sends nothing after Close.",
          "Trusted: go/ssa, gse semantics (sequential: StopHunt/Close delivered at iteration boundaries, ticker arm always enabled), z3. Wall-clock period outside the claim.",
          "DESIGN.md §4 C13", "bounded symbolic execution of the handler from symbolic hunt-list states, SMT-decided emission specification"),
+ "C11": ("Bounded model checking by induction on the real DHCP handler (real Session, recording connection, deliberately small /28 and /29 pools): from an arbitrary invariant lease table (empty or one arbitrary lease), every DISCOVER / REQUEST (selecting, renewing-rebinding, rebooting) / DECLINE / RELEASE message with symbolic client id, chaddr, xid, addresses and option values is processed; every OFFER/ACK address must lie inside the client's subnet, differ from our address, the router, network and broadcast addresses, from any address acknowledged to another client and from any address the session tracks for another MAC; the lease-table invariant (no address acknowledged twice, allocated leases usable) is re-established.",
+         "Trusted: go/ssa, gse semantics, z3, the harness's reply decoder. Lease persistence off; attack burst disabled; address conflicts between a valid lease and a squatting device excluded (evidence.assumptions).",
+         "DESIGN.md §4 C11-C12", "inductive step by bounded symbolic execution from symbolic lease-table states, SMT-decided reply and invariant obligations"),
+ "C12": ("Bounded model checking by induction on the same DHCP step harness: every OFFER/ACK carries the subnet mask, router and DNS server of the subnet selected by the client's capture state, mask before router, our server identifier and the subnet's lease time, echoes xid and chaddr; an ACK confirms the offer of this transaction or the client's current unexpired lease and is never sent for a request selecting another server; a NAK carries no address; in all three operating modes.",
+         "Trusted: as C11. The full NAK-versus-silence table is not asserted (only 'never ACK' conditions).",
+         "DESIGN.md §4 C11-C12", "inductive step by bounded symbolic execution, SMT-decided reply contract"),
 }
 
 NOT_APPLICABLE = {
